@@ -23,6 +23,12 @@ type HelloPingHandler struct {
 
 	sendLock sync.Mutex
 
+	// handleLock serializes the handling of incoming hello requests and responses.
+	// The router runs one frame handler per CPU: without it, a request can be served
+	// on the previous encryption session object while a response to the own request
+	// is concurrently replacing it, leaving both routers with keys of different exchanges.
+	handleLock sync.Mutex
+
 	active     map[netip.Addr]*helloPingState
 	activeLock sync.Mutex
 }
@@ -162,6 +168,9 @@ func (h *HelloPingHandler) Send(dstIP netip.Addr) (notify <-chan struct{}, err e
 
 // Handle handles incoming ping frames.
 func (h *HelloPingHandler) Handle(w *mgr.WorkerCtx, f frame.Frame, hdr *PingHeader, data []byte) error {
+	h.handleLock.Lock()
+	defer h.handleLock.Unlock()
+
 	if hdr.FollowUp {
 		return h.handlePingHelloResponse(w, f, hdr, data)
 	}
